@@ -86,9 +86,10 @@ Theorem C13_extent_resolution_rounding :
   forall x0 y0 x1 y1 dx dy, x0 < x1 -> y0 < y1 -> 0 < dx -> 0 < dy ->
     let h := round_dim RO ((y1 - y0) / dy) in
     let w := round_dim RO ((x1 - x0) / dx) in
+    (1 <= h)%Z -> (1 <= w)%Z ->
     create_area_def RO pfwd pinv fac geographic crs_units
       (mk_args None None (Some ((x0, y0, x1, y1), None)) None None None (Some ((dx, dy), None)) None None)
-    = if (h =? 0)%Z || (w =? 0)%Z then Raised else Area (x0, y0, x1, y1) (h, w).
+    = Area (x0, y0, x1, y1) (h, w).
 Proof. exact extent_resolution_rounding. Qed.
 Print Assumptions C13_extent_resolution_rounding.
 Theorem C13_round_shape_exact : forall n : Z, round_dim RO (IZR n) = n.
@@ -242,6 +243,6 @@ Example C13_dump_load_ex :
   area_ok facts a /\ loaded_extent facts a = (-100 * 1000, -200 * 1000, 300 * 1000, 400 * 1000).
 Proof.
   cbn zeta. split.
-  - unfold area_ok. cbn. repeat split; try lia; try discriminate. right. reflexivity.
+  - unfold area_ok. cbn. repeat split; try lia; try lra; try discriminate. right. split; [reflexivity|lra].
   - reflexivity.
 Qed.
